@@ -164,7 +164,7 @@ PROPS['C11'] = {
 }
 PROPS['C20'] = {
     'group': 'plss', 'level': 'proof', 'build_timeout': 2400,
-    'explanation': 'Proved for every text: if every section match carries a colon the three colon modes give identical finder results (matches, flags, lines); if none does, requiring it rejects all; '
+    'explanation': 'Proved for every text: if every section match carries a colon the three colon modes give identical finder results (matches, flags, lines); if none does, requiring it rejects all while the cautious mode accepts on its second pass exactly what the default accepts (same matches and finder flags) and adds the pulled_sec_without_colon warning; '
                    'rebuild_sec_within with exactly one staged tract joins the cleaned leading (index 0) and trailing unused blocks of >= 4 characters around the description in order and otherwise changes nothing. '
                    'Segment on single-layout descriptions and the end-to-end effect of the modes are decided on each run by the oracle over generated descriptions and placements. ' + _PLSS_TIE,
 }
